@@ -77,6 +77,8 @@ class BStr:
         return bool(SymBool(self.contains_term(needle)))
 
     def startswith(self, p: Any) -> SymBool:
+        if isinstance(p, tuple):
+            return SymBool(z3.Or(*[self.startswith(q).t for q in p])) if p else SymBool(z3.BoolVal(False))
         nd = BStr.const(p)
         if nd.cap > self.cap:
             return SymBool(z3.BoolVal(False))
